@@ -16,6 +16,22 @@
 (* textually LATER site (the earlier one was valid until the later one was *)
 (* written; the compiler's own help text calls the other site the "first   *)
 (* definition"), so OffendingPos is the later site, found in the TEXT.     *)
+(* The two introductions of a duplicated name are each a definition, a     *)
+(* `use` (namespace import) or a `from .. use` (name import): every ordered *)
+(* pair of these occurs (the position dimension puts the planted one first *)
+(* or second).  Both introductions stand in ONE file, the case's file; the *)
+(* expected location is always in that file, also when the colliding name  *)
+(* was imported from other modules (for import/import: the second import   *)
+(* statement).  The "rel" dimension lays out the modules a name is         *)
+(* imported from so that the name's own definition stands on an earlier,   *)
+(* the same or a later LINE NUMBER than the colliding import statement -   *)
+(* line numbers of different files must never be related to each other.    *)
+(*                                                                         *)
+(* Preceding text shapes: string literals whose content spans lines in     *)
+(* every way (ends with / begins with / consists only of newlines, holds a *)
+(* blank line, holds CRLF, ends with CRLF), in every place a string can    *)
+(* stand (initialiser, call argument, expression statement), also directly *)
+(* after a comment and directly before a trailing comment.                 *)
 (***************************************************************************)
 EXTENDS SyltLex
 
@@ -27,36 +43,75 @@ diagvars == <<text, pos, toks, ln>>
 (* The universe *)
 Kinds  == <<"syn_rparen", "syn_char", "unresolved", "dup_global", "const_local", "const_global",
             "const_param", "op_mismatch", "arg_mismatch", "annot_mismatch", "break_outside", "conflict",
-            "dup_import", "dup_from_import">>
+            "dup_import", "dup_from_import",
+            "dup_use_use", "dup_from_from", "dup_from_use", "dup_use_from">>
 Files  == <<"main", "sibling", "sub">>
 Poss   == <<"top_first", "top_mid", "top_last", "fn_body", "if_branch">>
-Shapes == <<"none", "ascii_comment", "nonascii_comment", "nonascii_string", "ml_string2", "ml_string3",
-            "blank_lines", "crlf", "tabs">>
+BaseShapes == <<"none", "ascii_comment", "nonascii_comment", "nonascii_string", "ml_string2", "ml_string3",
+                "blank_lines", "crlf", "tabs">>
 
 Range(s) == {s[q] : q \in 1..Len(s)}
+
+(* String literals that span lines: content x place.  (two, init) and (three, init) are the older shapes
+   ml_string2 / ml_string3; every other pair is a shape named str_<content>_<place>. *)
+Contents  == <<"two", "three", "endnl", "startnl", "onlynl", "blankmid", "endnl2", "crlfmid", "crlfend">>
+StrPlaces == <<"init", "arg", "stmt">>
+StrText(ct) == CASE ct = "two"      -> "first\nsecond"
+                 [] ct = "three"    -> "first\nsecond\nthird"
+                 [] ct = "endnl"    -> "first\n"             \* the closing quote starts a line
+                 [] ct = "startnl"  -> "\nsecond"
+                 [] ct = "onlynl"   -> "\n\n"
+                 [] ct = "blankmid" -> "first\n\nthird"
+                 [] ct = "endnl2"   -> "first\n\n"
+                 [] ct = "crlfmid"  -> "first\r\nsecond"
+                 [] ct = "crlfend"  -> "first\r\n"
+NCt == Len(Contents)
+AllPairs == [i \in 1..(NCt * Len(StrPlaces)) |->
+                <<Contents[((i - 1) % NCt) + 1], StrPlaces[((i - 1) \div NCt) + 1]>>]     \* content fastest
+IsNewPair(cp) == ~(cp[2] = "init" /\ cp[1] \in {"two", "three"})
+NewPairs == SelectSeq(AllPairs, IsNewPair)
+StrShapeName(ct, pl) == "str_" \o ct \o "_" \o pl
+ShapeFor(ct, pl) == IF pl = "init" /\ ct = "two" THEN "ml_string2"
+                    ELSE IF pl = "init" /\ ct = "three" THEN "ml_string3" ELSE StrShapeName(ct, pl)
+StrShapes == [i \in 1..Len(NewPairs) |-> StrShapeName(NewPairs[i][1], NewPairs[i][2])]
+PairOf(shape) == CHOOSE cp \in Range(NewPairs) : StrShapeName(cp[1], cp[2]) = shape
+\* a comment directly followed by such a literal, such a literal directly followed by a comment, non-ASCII inside one
+ComboShapes == <<"cmt_endnl", "cmt_startnl", "cmt_onlynl", "endnl_cmt", "nonascii_endnl">>
+
+Shapes == BaseShapes \o StrShapes \o ComboShapes
+
+(* Layout of the modules a colliding name is imported from (leaf.sy and twin.sy both define lv): the line number of
+   that definition relative to the line number of the colliding `from .. use` statement in the case's file. *)
+Rels == <<"def_earlier", "def_equal", "def_later">>
 
 NK == Len(Kinds)
 NF == Len(Files)
 NP == Len(Poss)
 NS == Len(Shapes)
-NCases == NK * NF * NP * NS
+NR == Len(Rels)
+NCases == NK * NF * NP * NS * NR
 
-\* mixed radix, kind fastest
+\* mixed radix, kind fastest, rel slowest
 Case(i) == LET m == i - 1 IN
            [kind  |-> Kinds[(m % NK) + 1],
             file  |-> Files[((m \div NK) % NF) + 1],
             pos   |-> Poss[((m \div (NK * NF)) % NP) + 1],
-            shape |-> Shapes[((m \div (NK * NF * NP)) % NS) + 1]]
+            shape |-> Shapes[((m \div (NK * NF * NP)) % NS) + 1],
+            rel   |-> Rels[((m \div (NK * NF * NP * NS)) % NR) + 1]]
 
 TopPos  == {"top_first", "top_mid", "top_last"}
 InFnPos == {"fn_body", "if_branch", "nested"}      \* "nested" only occurs in the random variations
 
 (* Where a kind can be written at all: a global can only be (re)defined at the top level; a local
    constant and its assignment need two statements, which a one-line top-level function cannot hold. *)
-DupKinds == {"dup_global", "dup_import", "dup_from_import"}
-Applicable(c) == CASE c.kind \in DupKinds -> c.pos \in TopPos
-                   [] c.kind = "const_local" -> c.pos \in InFnPos
-                   [] OTHER -> TRUE
+DupKinds == {"dup_global", "dup_import", "dup_from_import", "dup_use_use", "dup_from_from", "dup_from_use", "dup_use_from"}
+\* duplicates one of whose introductions is a `from .. use` of a name defined in another module: only for these does
+\* the layout of that module (rel) mean anything; all other kinds keep the plain layout (definition on line 1)
+FromKinds == {"dup_from_import", "dup_from_from", "dup_from_use", "dup_use_from"}
+Applicable(c) == /\ CASE c.kind \in DupKinds -> c.pos \in TopPos
+                      [] c.kind = "const_local" -> c.pos \in InFnPos
+                      [] OTHER -> TRUE
+                 /\ c.rel # "def_earlier" => c.kind \in FromKinds
 
 ApplicableIdx == {i \in 1..NCases : Applicable(Case(i))}
 
@@ -79,17 +134,38 @@ Construct(kind, top) ==
       [] kind = "conflict"       -> "<<<<<<< HEAD"
       [] kind = "dup_import"     -> "leaf :: 7"
       [] kind = "dup_from_import" -> "lw :: 7"
+      [] kind = "dup_use_use"    -> "use /twin as leaf"            \* collides with `use /leaf`
+      [] kind = "dup_from_from"  -> "from /twin use lv as lw"      \* collides with `from /leaf use lv as lw`
+      [] kind = "dup_from_use"   -> "from /twin use lv as leaf"    \* collides with `use /leaf`
+      [] kind = "dup_use_from"   -> "use /twin as lw"              \* collides with `from /leaf use lv as lw`
 
 (* The line(s) a preceding-text shape puts directly before the planted line ('@' stands for any
    non-ASCII character).  "crlf" and "tabs" are whole-file styles, "none" adds nothing. *)
-LineShapes == {"ascii_comment", "nonascii_comment", "nonascii_string", "ml_string2", "ml_string3", "blank_lines"}
-ShapeLine(shape) ==
-    CASE shape = "ascii_comment"    -> "// a plain comment: x :: ) $ break"
-      [] shape = "nonascii_comment" -> "// kommentar @@@ @ @ @@"
-      [] shape = "nonascii_string"  -> "s1 :: \"gr@@e @ @ @@\""
-      [] shape = "ml_string2"       -> "s1 :: \"first\nsecond\""
-      [] shape = "ml_string3"       -> "s1 :: \"first\nsecond\nthird\""
-      [] shape = "blank_lines"      -> "\n"
+BaseLineShapes == {"ascii_comment", "nonascii_comment", "nonascii_string", "ml_string2", "ml_string3", "blank_lines"}
+LineShapes == BaseLineShapes \cup Range(StrShapes) \cup Range(ComboShapes)
+Cmt == "// a plain comment: x :: ) $ break"
+\* a string literal in one of the places a string can stand; an expression statement cannot stand at the top level,
+\* there it is the body of a one-line function definition (like Construct)
+WrapStr(pl, s, top) == CASE pl = "init" -> "s1 :: \"" \o s \o "\""
+                         [] pl = "arg"  -> "s1 :: sid(\"" \o s \o "\")"
+                         [] pl = "stmt" -> IF top THEN "sf1 :: fn do \"" \o s \o "\" end" ELSE "\"" \o s \o "\""
+\* the source lines of a shape (a "line" holds the newlines of its literal); top: written at the top level
+ShapeLines(shape, top) ==
+    CASE shape = "ascii_comment"    -> <<Cmt>>
+      [] shape = "nonascii_comment" -> <<"// kommentar @@@ @ @ @@">>
+      [] shape = "nonascii_string"  -> <<"s1 :: \"gr@@e @ @ @@\"">>
+      [] shape = "ml_string2"       -> <<WrapStr("init", StrText("two"), top)>>
+      [] shape = "ml_string3"       -> <<WrapStr("init", StrText("three"), top)>>
+      [] shape = "blank_lines"      -> <<"\n">>
+      [] shape = "cmt_endnl"        -> <<Cmt, WrapStr("init", StrText("endnl"), top)>>
+      [] shape = "cmt_startnl"      -> <<Cmt, WrapStr("init", StrText("startnl"), top)>>
+      [] shape = "cmt_onlynl"       -> <<Cmt, WrapStr("init", StrText("onlynl"), top)>>
+      [] shape = "endnl_cmt"        -> <<WrapStr("init", StrText("endnl"), top) \o " // trailing: x :: ) $">>
+      [] shape = "nonascii_endnl"   -> <<"s1 :: \"gr@@e @ @ @@\n\"">>
+      [] OTHER -> LET cp == PairOf(shape) IN <<WrapStr(cp[2], StrText(cp[1]), top)>>
+\* the shape as text: every line indented by I and ended by a newline
+ShapeText(shape, top, I) == LET ls == ShapeLines(shape, top) IN
+    IF Len(ls) = 1 THEN I \o ls[1] \o NL ELSE I \o ls[1] \o NL \o I \o ls[2] \o NL
 
 ---------------------------------------------------------------------------
 (* Text-derived expectation *)
@@ -113,6 +189,10 @@ MarkerOK(c, t, p) ==
 DefSpellings(kind) == CASE kind = "dup_global" -> {"ga :: "}
                         [] kind = "dup_import" -> {"leaf :: ", "use /leaf"}
                         [] kind = "dup_from_import" -> {"lw :: ", "from /leaf use lv as lw"}
+                        [] kind = "dup_use_use"   -> {"use /twin as leaf", "use /leaf"}
+                        [] kind = "dup_from_from" -> {"from /twin use lv as lw", "from /leaf use lv as lw"}
+                        [] kind = "dup_from_use"  -> {"from /twin use lv as leaf", "use /leaf"}
+                        [] kind = "dup_use_from"  -> {"use /twin as lw", "from /leaf use lv as lw"}
                         [] OTHER               -> {}
 
 Sites(t, kind) == {q \in 1..Len(t) : /\ \E s \in DefSpellings(kind) : InText(t, q, s)
@@ -120,6 +200,7 @@ Sites(t, kind) == {q \in 1..Len(t) : /\ \E s \in DefSpellings(kind) : InText(t, 
 
 OffendingPos(c, t, p) == IF DefSpellings(c.kind) = {} THEN p ELSE SetMax(Sites(t, c.kind) \cup {p})
 
+\* both introductions stand in the case's file, whatever modules the names come from
 ExpectedFile(c) == PathOf(c.file)
 ExpectedLine(c, t, p) == LineOf(t, OffendingPos(c, t, p))
 
@@ -136,20 +217,40 @@ Verdict(c, el, res, efile, eline) ==
 ShapeOK(c, t, p) ==
     LET I == Indent(t, p) IN
     CASE c.shape \in LineShapes ->
-            LET S == I \o ShapeLine(c.shape) \o NL \o I IN InText(t, p - Len(S), S)
+            LET S == ShapeText(c.shape, IsTop(c), I) \o I IN InText(t, p - Len(S), S)
       [] c.shape = "crlf" -> \A q \in 1..Len(t) : Ch(t, q) = NL => (q > 1 /\ Ch(t, q - 1) = "\r")
       [] c.shape = "tabs" -> /\ \A q \in 1..(Len(t) - 1) : Ch(t, q) = NL => Ch(t, q + 1) # " "
                              /\ \E q \in 1..Len(t) : Ch(t, q) = "\t"
       [] OTHER -> \A q \in 1..Len(t) : Ch(t, q) \notin {"\r", "\t", "@"}
+
+\* the colliding `from .. use` statement of a FromKinds case: the later one if there are two
+RefPos(c, t) == SetMax({q \in Sites(t, c.kind) : InText(t, q, "from /")})
+\* the line on which a module text (leaf.sy, twin.sy) defines lv
+DefLineIn(mt) == LineOf(mt, CHOOSE q \in 1..Len(mt) : InText(mt, q, "lv :: ") /\ LineStartOK(mt, q))
+\* the imported modules are laid out as the case's rel says (lt, tt: texts of leaf.sy and twin.sy)
+RelOK(c, t, lt, tt) ==
+    LET dl == DefLineIn(lt) IN
+    /\ DefLineIn(tt) = dl
+    /\ IF c.kind \in FromKinds
+       THEN LET rl == LineOf(t, RefPos(c, t)) IN
+            CASE c.rel = "def_earlier" -> dl = 1 /\ (dl < rl \/ rl = 1)   \* (an import on line 1 has nothing earlier)
+              [] c.rel = "def_equal"   -> dl = rl
+              [] c.rel = "def_later"   -> dl > rl
+       ELSE c.rel = "def_earlier" /\ dl = 1
 
 ---------------------------------------------------------------------------
 (* Generator model: walk the spec's own sample texts with a running counter and compare it with the
    text-derived line index in every state (the counter exists only here). *)
 Indents == {"", "    ", "\t\t"}
 Ends == {NL, "\r\n"}
+Sample(I, s, kd, top, e) == LET ls == ShapeLines(s, top) IN
+    (IF Len(ls) = 1 THEN I \o ls[1] \o e ELSE I \o ls[1] \o e \o I \o ls[2] \o e)
+        \o I \o Construct(kd, top) \o e \o "end" \o e
+SampleKinds == {"syn_rparen", "const_global", "dup_from_from"}     \* for the newer shapes (the construct matters little here)
 SampleTexts ==
-    {I \o ShapeLine(s) \o e \o I \o Construct(kd, top) \o e \o "end" \o e :
-        I \in Indents, s \in LineShapes, kd \in Range(Kinds), top \in BOOLEAN, e \in Ends}
+    {Sample(I, s, kd, top, e) : I \in Indents, s \in BaseLineShapes, kd \in Range(Kinds), top \in BOOLEAN, e \in Ends}
+    \cup {Sample(I, s, kd, top, e) : I \in Indents, s \in LineShapes \ BaseLineShapes, kd \in SampleKinds,
+                                     top \in BOOLEAN, e \in Ends}
 
 DiagInit == /\ text \in SampleTexts
             /\ pos = 1 /\ toks = <<>> /\ ln = 1
@@ -170,25 +271,67 @@ RECURSIVE CountNL(_, _)
 CountNL(t, n) == IF n = 0 THEN 0 ELSE CountNL(t, n - 1) + (IF Ch(t, n) = NL THEN 1 ELSE 0)
 
 \* the sample's planted construct sits where counting newlines says it does
-SampleMarker(t) == CHOOSE p \in 1..Len(t) : \E kd \in Range(Kinds), top \in BOOLEAN :
-                        /\ InText(t, p, Construct(kd, top) \o NL) \/ InText(t, p, Construct(kd, top) \o "\r\n")
-                        /\ LineStartOK(t, p) /\ p > 1
+SampleMarker(t) == CHOOSE p \in 2..Len(t) :
+                        /\ Ch(t, p) \notin Blank \cup {NL} /\ LineStartOK(t, p)      \* (cheap conjuncts first)
+                        /\ \E kd \in Range(Kinds), top \in BOOLEAN :
+                              InText(t, p, Construct(kd, top) \o NL) \/ InText(t, p, Construct(kd, top) \o "\r\n")
 SampleLineOK == pos = 1 => LET p == SampleMarker(text) IN LineOf(text, p) = 1 + CountNL(text, p - 1)
 
 (* The universe is well formed: every dimension value occurs in an applicable case, cases are pairwise
    different, every construct is one line, multi-line shapes span exactly the lines they claim. *)
 NLs(s) == CountNL(s, Len(s))
+\* the ways a literal's content can span lines
+StrClasses == {"ends_nl", "starts_nl", "only_nl", "blank_inside", "crlf_inside", "ends_crlf", "text_last"}
+ClassOf(s) == LET n == Len(s) IN
+    {cl \in StrClasses :
+        CASE cl = "ends_nl"      -> Ch(s, n) = NL
+          [] cl = "starts_nl"    -> Ch(s, 1) = NL
+          [] cl = "only_nl"      -> \A q \in 1..n : Ch(s, q) = NL
+          [] cl = "blank_inside" -> \E q \in 2..(n - 2) : Ch(s, q) = NL /\ Ch(s, q + 1) = NL
+          [] cl = "crlf_inside"  -> \E q \in 2..(n - 2) : Ch(s, q) = "\r" /\ Ch(s, q + 1) = NL
+          [] cl = "ends_crlf"    -> n >= 2 /\ Ch(s, n - 1) = "\r" /\ Ch(s, n) = NL
+          [] cl = "text_last"    -> Ch(s, n) # NL /\ NLs(s) > 0}
+\* shapes one of whose literals has a newline directly before its closing quote (told to the check for its controls)
+NLBeforeQuote(l) == \E q \in 2..Len(l) : Ch(l, q) = DQ /\ Ch(l, q - 1) = NL
+EndsNLShapes == {s \in LineShapes : \E l \in Range(ShapeLines(s, TRUE)) : NLBeforeQuote(l)}
+MultiLineStringShapes == {s \in LineShapes \ {"blank_lines"} : \E l \in Range(ShapeLines(s, TRUE)) : NLs(l) > 0}
+ContentNLs(ct) == CASE ct \in {"two", "endnl", "startnl", "crlfmid", "crlfend"} -> 1 [] OTHER -> 2
+ApplicableCases == {Case(i) : i \in ApplicableIdx}
 UniverseOK ==
-    /\ \A kd \in Range(Kinds)  : \E i \in ApplicableIdx : Case(i).kind = kd
-    /\ \A f \in Range(Files)   : \E i \in ApplicableIdx : Case(i).file = f
-    /\ \A kd \in Range(Kinds), f \in Range(Files) : \E i \in ApplicableIdx : Case(i).kind = kd /\ Case(i).file = f
-    /\ \A q \in Range(Poss)    : \E i \in ApplicableIdx : Case(i).pos = q
-    /\ \A s \in Range(Shapes), kd \in Range(Kinds) : \E i \in ApplicableIdx : Case(i).shape = s /\ Case(i).kind = kd
-    /\ Cardinality({Case(i) : i \in 1..NCases}) = NCases
-    /\ Cardinality(Range(Kinds)) = NK
+    /\ \A kd \in Range(Kinds)  : \E c \in ApplicableCases : c.kind = kd
+    /\ \A f \in Range(Files)   : \E c \in ApplicableCases : c.file = f
+    /\ \A kd \in Range(Kinds), f \in Range(Files) : \E c \in ApplicableCases : c.kind = kd /\ c.file = f
+    /\ \A q \in Range(Poss)    : \E c \in ApplicableCases : c.pos = q
+    /\ \A s \in Range(Shapes), kd \in Range(Kinds) : \E c \in ApplicableCases : c.shape = s /\ c.kind = kd
+    /\ Cardinality({Case(i) : i \in 1..NCases}) = NCases /\ Cardinality(ApplicableCases) = Cardinality(ApplicableIdx)
+    /\ Cardinality(Range(Kinds)) = NK /\ Cardinality(Range(Shapes)) = NS
     /\ \A kd \in Range(Kinds), top \in BOOLEAN : Len(Construct(kd, top)) > 0 /\ NLs(Construct(kd, top)) = 0
     /\ Cardinality({Construct(kd, FALSE) : kd \in Range(Kinds)}) = NK
-    /\ NLs(ShapeLine("ml_string2")) = 1 /\ NLs(ShapeLine("ml_string3")) = 2 /\ NLs(ShapeLine("blank_lines")) = 1
-    /\ \A s \in LineShapes \ {"ml_string2", "ml_string3", "blank_lines"} : NLs(ShapeLine(s)) = 0
-    /\ LineShapes \subseteq Range(Shapes)
+    /\ NLs(ShapeLines("ml_string2", TRUE)[1]) = 1 /\ NLs(ShapeLines("ml_string3", TRUE)[1]) = 2
+    /\ NLs(ShapeLines("blank_lines", TRUE)[1]) = 1
+    /\ \A s \in BaseLineShapes \ {"ml_string2", "ml_string3", "blank_lines"} : NLs(ShapeLines(s, TRUE)[1]) = 0
+    /\ LineShapes \subseteq Range(Shapes) /\ Range(Shapes) \ LineShapes = {"none", "crlf", "tabs"}
+    /\ \A s \in LineShapes, top \in BOOLEAN : Len(ShapeLines(s, top)) \in {1, 2}
+    \* every duplicate kind has two different spellings of the name's introductions, the planted one among them
+    /\ \A kd \in DupKinds : /\ Cardinality(DefSpellings(kd)) \in {1, 2}
+                             /\ \E sp \in DefSpellings(kd) : InText(Construct(kd, TRUE), 1, sp)
+    /\ \A kd \in Range(Kinds) \ DupKinds : DefSpellings(kd) = {}
+    /\ FromKinds \subseteq DupKinds
+    \* the cross-file dimension: every layout x every from-import duplicate x every file x every top-level position
+    /\ \A r \in Range(Rels), kd \in FromKinds, f \in Range(Files), q \in TopPos, s \in Range(Shapes) :
+          [kind |-> kd, file |-> f, pos |-> q, shape |-> s, rel |-> r] \in ApplicableCases
+    /\ \A c \in ApplicableCases : c.kind \notin FromKinds => c.rel = "def_earlier"
+    \* the string-shape dimension: every content spans the lines it claims, every class of line-spanning content
+    \* occurs in every place a string can stand, and each such shape is in the universe
+    /\ \A ct \in Range(Contents) : NLs(StrText(ct)) = ContentNLs(ct)
+    /\ \A cl \in StrClasses, pl \in Range(StrPlaces) :
+          \E ct \in Range(Contents) : cl \in ClassOf(StrText(ct)) /\ ShapeFor(ct, pl) \in Range(Shapes)
+    /\ \A ct \in Range(Contents), pl \in Range(StrPlaces), top \in BOOLEAN :
+          /\ ShapeFor(ct, pl) \in LineShapes
+          /\ ShapeLines(ShapeFor(ct, pl), top) = <<WrapStr(pl, StrText(ct), top)>>
+    /\ \A s \in {"cmt_endnl", "cmt_startnl", "cmt_onlynl"}, top \in BOOLEAN :
+          LET ls == ShapeLines(s, top) IN Len(ls) = 2 /\ Sub(ls[1], 1, 2) = "//" /\ NLs(ls[1]) = 0 /\ NLs(ls[2]) > 0
+    /\ {"cmt_endnl", "cmt_onlynl", "endnl_cmt", "nonascii_endnl"} \subseteq EndsNLShapes
+    /\ \A pl \in Range(StrPlaces) : {ShapeFor(ct, pl) : ct \in {"endnl", "onlynl", "endnl2", "crlfend"}} \subseteq EndsNLShapes
+    /\ {"ml_string2", "ml_string3", "str_startnl_init", "str_blankmid_arg", "str_crlfmid_stmt"} \cap EndsNLShapes = {}
 =============================================================================
